@@ -51,6 +51,10 @@ def check(ctx: Ctx) -> str:
 
     r3_safe_repr(ctx, "R6")
     call_emission_rule(ctx, "R7")
+    # built-in filters over dotted attribute paths (rule owned by C22)
+    from . import c22
+
+    ctx.run_imported("C22", {"R5"}, c22.check)
     return __doc__ or ""
 
 
